@@ -1,0 +1,27 @@
+//go:build verif
+
+package actionlint
+
+// Exported wrappers around unexported functions for the verification harness in /verif.
+// This file is only compiled with the build tag "verif".
+
+// VerifPathFromProjectRoot exposes (*Linter).pathFromProjectRoot for a linter whose working directory is cwd.
+func VerifPathFromProjectRoot(cwd, path, root string) string {
+	l := &Linter{cwd: cwd}
+	return l.pathFromProjectRoot(path, &Project{root: root})
+}
+
+// VerifProjectKnows exposes (*Project).Knows for a project rooted at root.
+func VerifProjectKnows(root, path string) bool {
+	return (&Project{root: root}).Knows(path)
+}
+
+// VerifSanitizeExpressionsInScript exposes sanitizeExpressionsInScript.
+func VerifSanitizeExpressionsInScript(src string) string {
+	return sanitizeExpressionsInScript(src)
+}
+
+// VerifIsYAMLValueSubset exposes isYAMLValueSubset.
+func VerifIsYAMLValueSubset(v, sub RawYAMLValue) bool {
+	return isYAMLValueSubset(v, sub)
+}
